@@ -359,9 +359,10 @@ public:
 	Array& operator=(const Array& b)
 	{
 		if(this==&b) return *this;
+		T* a = b._a; // b may be an element of this array: take its buffer before releasing ours
+		++b.d().rc;
 		if(--d().rc==0) free();
-		_a=b._a;
-		++d().rc;
+		_a=a;
 		return *this;
 	}
 	
